@@ -68,7 +68,51 @@ func mdBuild(seed int64, variant int) *genNet {
 	if variant >= 2 {
 		mdExtras(g, r, o, variant)
 	}
+	if seed%2 == 0 {
+		mdMoveAfterRead(g)
+	}
 	return g
+}
+
+// mdMoveAfterRead: every getter a document uses is read once (as a first export would), then
+// the top-level signals of every message are moved (compaction, a shift of the first
+// multiplexer): the document of the moved network must show the NEW start bits at every depth.
+func mdMoveAfterRead(g *genNet) {
+	var walk func(s acmelib.Signal)
+	walk = func(s acmelib.Signal) {
+		_ = s.GetStartBit()
+		_ = s.GetSize()
+		if ms, err := s.ToMultiplexer(); err == nil {
+			for _, grp := range ms.GetSignalGroups() {
+				for _, k := range grp {
+					walk(k)
+				}
+			}
+		}
+	}
+	for _, m := range g.msgs {
+		for _, s := range m.Signals() {
+			walk(s)
+		}
+	}
+	for _, m := range g.msgs {
+		for _, s := range m.Signals() {
+			if s.Kind() == acmelib.SignalKindMultiplexer {
+				m.ShiftSignalRight(s.EntityID(), 3)
+				break
+			}
+		}
+		m.CompactSignals()
+	}
+}
+
+// mdAbsStart is the absolute start bit of a signal computed from the RELATIVE positions and the
+// selector widths along its ancestors (independent of Signal.GetStartBit).
+func mdAbsStart(s acmelib.Signal) int {
+	if p := s.ParentMultiplexerSignal(); p != nil {
+		return mdAbsStart(p) + p.GetGroupCountSize() + s.GetRelativeStartPos()
+	}
+	return s.GetRelativeStartPos()
 }
 
 // safeBuildNetwork runs the shared generator; a seed on which the generator itself fails (it
@@ -322,7 +366,7 @@ func newMdLabels(g *genNet) *mdLabels {
 }
 
 func (l *mdLabels) sig(s acmelib.Signal) jSig {
-	j := jSig{N: s.Name(), S: s.GetStartBit(), Z: s.GetSize(), D: s.Desc()}
+	j := jSig{N: s.Name(), S: mdAbsStart(s), Z: s.GetSize(), D: s.Desc()}
 	switch s.Kind() {
 	case acmelib.SignalKindStandard:
 		ss, err := s.ToStandard()
@@ -574,7 +618,7 @@ type mdOcc struct{ name, start, size string }
 
 // mdWalk lists the signal occurrences of a tree in document order and counts its groups.
 func mdWalk(s acmelib.Signal, occ *[]mdOcc, groups *int, refs *mdRefs) {
-	*occ = append(*occ, mdOcc{s.Name(), strconv.Itoa(s.GetStartBit()), strconv.Itoa(s.GetSize())})
+	*occ = append(*occ, mdOcc{s.Name(), strconv.Itoa(mdAbsStart(s)), strconv.Itoa(s.GetSize())})
 	switch s.Kind() {
 	case acmelib.SignalKindStandard:
 		ss, _ := s.ToStandard()
